@@ -132,6 +132,26 @@ def run(ctx):
         if first[0] != "ok" or second[0] != "ok":
             res.violate("e2e-retry-id", case, "both requests succeed (the agent echoes the id of every PDU it answers)", [list(first)[:2], list(second)[:2]],
                         "a conformant echoing agent was refused around a retransmission", {"kind": "echo-refused", "op": "retransmission"})
+        # ... and the answer to the retransmitted request is subject to the same rule: a foreign
+        # request-id there (the report and the re-discovery before it are left alone) is refused
+        delta = RID_DELTAS[i % len(RID_DELTAS)]
+        agent.v3.boots += 1
+        agent.hook = perturb("rid", delta)
+        n_before = len(agent.resp_log)
+        with O.with_clock([base + 1000 + j * step for j in range(64)]):
+            third = BL.guarded(lambda: W.run(client.get(RA.OID([1, 3, 6, 1, 2, 1, 1, 1, 0]))), 5.0)
+        agent.hook = None
+        res.evaluations += 1
+        res.count("foreign-id-on-retransmission")
+        answered = len(agent.resp_log) - n_before  # responses (not reports) sent: the one to the retransmission
+        if answered >= 1 and third[0] == "ok":
+            res.violate("e2e-retry-id", {**case, "delta": delta}, "InvalidResponseId", list(third)[:2],
+                        "a response with a foreign request-id was returned as the result of a retransmitted request", {"kind": "foreign-response-accepted", "op": "retransmission"})
+        elif answered >= 1 and (third[0] != "error" or third[1] != "InvalidResponseId"):
+            res.violate("e2e-retry-id", {**case, "delta": delta}, "InvalidResponseId", list(third)[:2],
+                        "foreign request-id on a retransmitted request did not raise InvalidResponseId", {"kind": "foreign-response-other-error", "op": "retransmission"})
+        elif answered == 0:
+            res.count("foreign-id-on-retransmission:no-response-seen")
     # walks under a stepping clock: echoing agent must be accepted at every request; a perturbed k-th answer must raise
     for i in range(ctx.budget(120, 3000)):
         db, roots = W.random_case(ctx.rng, max_inst=20, max_roots=3)
